@@ -13,7 +13,19 @@ SPECS=""; for g in $GROUPS_; do SPECS="$SPECS${SPECS:+,}$HERE/specs/$g.json"; do
 TMP="$(mktemp -d /tmp/decgen-regen.XXXXXX)"; trap 'rm -rf "$TMP"' EXIT
 ( cd "$HERE" && timeout 600 go run . -repo "$REPO" -spec "$SPECS" -out "$TMP" -eq "$TMP" ) || { echo "decgen stopped: fix the spec (or the subset) first; goldens untouched"; exit 3; }
 mkdir -p "$VERIF/coq/Gen" "$VERIF/coq/Tie"
-targets="Gen/GoInt.vo Gen/DecTypes.vo Gen/DecTac.vo Gen/DecCorr.vo"
+( cd "$VERIF" && bin/coqbuild Gen/GoInt.vo Gen/DecTypes.vo Gen/DecTypes2.vo Gen/DecTac.vo Gen/DecCorr.vo >/dev/null )
+# every candidate must compile, and its obligation file must hold against an identical copy, before anything is installed
+for g in $GROUPS_; do
+  ( cd "$TMP" && timeout 300 coqc -Q "$VERIF/coq" SV -Q . SVB "Dec$g.v" >"$TMP/$g.log" 2>&1 ) || { echo "regenerated Dec$g.v does not compile; goldens untouched"; tail -20 "$TMP/$g.log"; exit 1; }
+done
+# the DecEq files refer to the installed golden SV.Gen.Dec<G>: check them after installing, but keep a backup to roll back
+mkdir -p "$TMP/bak"
+for g in $GROUPS_; do
+  [ -f "$VERIF/coq/Gen/Dec$g.v" ] && cp "$VERIF/coq/Gen/Dec$g.v" "$TMP/bak/Dec$g.v"
+  [ -f "$VERIF/coq/Tie/DecEq_$g.v" ] && cp "$VERIF/coq/Tie/DecEq_$g.v" "$TMP/bak/DecEq_$g.v"
+done
+rollback() { for g in $GROUPS_; do [ -f "$TMP/bak/Dec$g.v" ] && cp "$TMP/bak/Dec$g.v" "$VERIF/coq/Gen/Dec$g.v"; [ -f "$TMP/bak/DecEq_$g.v" ] && cp "$TMP/bak/DecEq_$g.v" "$VERIF/coq/Tie/DecEq_$g.v"; done; ( cd "$VERIF" && bin/coqbuild $targets >/dev/null 2>&1 ); echo "rolled back"; }
+targets=""
 for g in $GROUPS_; do
   if ! cmp -s "$TMP/Dec$g.v" "$VERIF/coq/Gen/Dec$g.v" 2>/dev/null; then
     echo "== Dec$g.v changed"; diff -u "$VERIF/coq/Gen/Dec$g.v" "$TMP/Dec$g.v" 2>/dev/null | head -60 || true
@@ -22,9 +34,8 @@ for g in $GROUPS_; do
   cmp -s "$TMP/DecEq_$g.v" "$VERIF/coq/Tie/DecEq_$g.v" 2>/dev/null || cp "$TMP/DecEq_$g.v" "$VERIF/coq/Tie/DecEq_$g.v"
   targets="$targets Gen/Dec$g.vo"
 done
-( cd "$VERIF" && bin/coqbuild $targets )
-# the obligation files must hold against an identical copy
+( cd "$VERIF" && bin/coqbuild $targets ) || { rollback; exit 1; }
 for g in $GROUPS_; do
-  ( cd "$TMP" && timeout 300 coqc -Q "$VERIF/coq" SV -Q . SVB "Dec$g.v" >/dev/null && timeout 600 coqc -Q "$VERIF/coq" SV -Q . SVB "DecEq_$g.v" >/dev/null ) || { echo "DecEq_$g.v does not check against its own golden"; exit 1; }
+  ( cd "$TMP" && timeout 600 coqc -Q "$VERIF/coq" SV -Q . SVB "DecEq_$g.v" >"$TMP/$g.eq.log" 2>&1 ) || { echo "DecEq_$g.v does not check against its own golden"; tail -20 "$TMP/$g.eq.log"; rollback; exit 1; }
 done
 echo "goldens up to date for: $GROUPS_"
